@@ -20,6 +20,8 @@ PROP = 'C08'
 MUTATORS = {'fix', 'rename'}
 OBSERVERS = {'eval'}
 ALWAYS_OBSERVED = True
+BUDGET = {'quick': {'runs': 3000, 'wall': 70},
+          'thorough': {'runs': 150000, 'wall': 1500}}
 
 
 # ---------------------------------------------------------------------------
